@@ -55,7 +55,9 @@ RULE = ("correspondence: every (value, bits 1..8, byte order, (width,minwidth) i
         "padded and unpadded, plus random per-frame mixtures; tag-level unsynchronisation x the other header flags: 0x40 without an "
         "extended header (body starts with a frame id; v2.3, v2.4), a real extended header (v2.3: 6-byte and 10-byte+CRC forms, inside the "
         "whole-tag unsynchronisation; v2.4: syncsafe forms minimal / CRC / update+CRC+restrictions), experimental 0x20 (v2.2, v2.3, v2.4), "
-        "footer 0x10 with a 3DI footer (v2.4; ignored bit in v2.2) -- the frames must read exactly as without those flags (not built: v2.2 "
+        "v2.4 extended header size fields across the 7-bit carries (6..15, 127/128, 131/132, 259/260, 387/388, 515/516, 16383/16384 ...) "
+        "backed by that many bytes and followed by two frames that must read back exactly, and size fields with a top bit set (must be "
+        "rejected, not masked), each x tag flag x frame flag; footer 0x10 with a 3DI footer (v2.4; ignored bit in v2.2) -- the frames must read exactly as without those flags (not built: v2.2 "
         "with 0x40 and v2.3 with 0x10, which the reader rejects; v2.3 extended headers whose own CRC bytes need stuffing are judged like the rest, a reader that loses all "
         "frames behind such a header is reported once per run under the class v23-ext-header-stuffed, with a directed minimal case (found "
         "by enumeration) in both tiers); payloads = every alphabet string to length 3 (quick; the three-byte ones on a rotating third of the layouts) / 4, long FF runs, "
@@ -1098,8 +1100,61 @@ def oracle_header(V, ver, size4):
     return True
 
 
+EXT_SIZES = list(range(6, 16)) + [126, 127, 128, 129, 131, 132, 133, 255, 256, 259, 260, 387, 388, 389, 515, 516, 2048, 16383, 16384, 16388, 16515, 16516]
+EXT_BAD_FIELDS = [bytes([a, b, c, e]) for a, b in ((0, 0), (0, 0x80), (0x80, 0), (0xFF, 0xFF), (0, 1)) for c in (0x00, 0x01, 0x7F, 0x80, 0xFF)
+                  for e in (0x00, 0x06, 0x0A, 0x7F, 0x80, 0x86, 0x8A, 0xFF) if max(a, b, c, e) >= 0x80]
+EXT_PAYLOAD = b"\xff\x00\xfe\xff"
+
+
+def oracle_exthdr(V, size4, tu, fu):
+    """v2.4 extended header: the size field is a syncsafe integer counting the whole extended header.  A clean field n is
+    followed by n - 4 bytes (number of flag bytes, flags, filler the reader skips) and two frames that must read back
+    exactly; a field with a top bit set must be rejected (MutagenError), not read with the bit masked off -- enough bytes
+    follow for the masked size to fit."""
+    import mutagen
+    from mutagen.id3 import ID3
+    valid = all(b < 0x80 for b in size4)
+    n = ref_decode(bytes(b & 0x7F for b in size4), 7, True)
+    ext = size4 + (b"\x01\x00" + b"\x00" * max(n - 6, 0) if valid else b"\x01\x00" + b"\x00" * ((max(n, 6) + 8) if n <= (1 << 16) else 64))
+    frames = b""
+    for fid, body in ((b"MCDI", EXT_PAYLOAD), (b"TIT2", b"\x01\xff\xfe" + TITLE.encode("utf-16-le"))):
+        data = ref_unsynch_encode(body) if (tu or fu) else body
+        frames += fid + syncsafe4(len(data)) + struct.pack(">H", 0x0002 if fu else 0) + data
+    body = ext + frames
+    raw = b"ID3\x04\x00" + bytes([0x40 | (0x80 if tu else 0)]) + syncsafe4(len(body)) + body
+    try:
+        t = ID3(io.BytesIO(raw))
+        mc, ti = t.getall("MCDI"), t.getall("TIT2")
+        good = len(mc) == 1 and mc[0].data == EXT_PAYLOAD and len(ti) == 1 and list(ti[0].text) == [TITLE] and not t.unknown_frames
+        r = "loaded, frames %s" % ("exact" if good else "wrong: MCDI=%s TIT2=%r" % ([f.data.hex() for f in mc], [list(f.text) for f in ti]))
+    except mutagen.MutagenError:
+        t, good, r = None, False, "rejected"
+    except Exception as e:
+        t, good, r = None, False, "!" + type(e).__name__
+    d = {"fn": "exthdr", "size": size4.hex(), "tag_unsynch": int(tu), "frame_unsynch": int(fu), "observed": r,
+         "tag": raw.hex() if len(raw) <= 300 else raw[:300].hex() + "..."}
+    if not valid:
+        if r != "rejected":
+            V("tag: v2.4 extended header size with padding bit set is not rejected", d)
+            return False
+    elif t is None:
+        V("tag: v2.4 tag with a valid syncsafe extended header size is not loaded", d)
+        return False
+    elif not good:
+        V("tag: frames behind a v2.4 extended header differ from the original frame bytes", d)
+        return False
+    return True
+
+
 def run_headers(ctx):
     V = _viol(ctx)
+    for tu in (0, 1):
+        for fu in (0, 1):
+            for size4 in [syncsafe4(n) for n in EXT_SIZES] + EXT_BAD_FIELDS:
+                oracle_exthdr(V, size4, tu, fu)
+                ctx.oracle_cases += 1
+                ctx.count("ext-header-size:v2.4 %s" % ("syncsafe" if max(size4) < 0x80 else "padding bit set"))
+                ctx.case(b"xhdr%d%d" % (tu, fu) + size4)
     for ver in (2, 3, 4):
         for t in itertools.product(HEADER_ALPHABET, repeat=4):
             size4 = bytes(t)
@@ -1401,6 +1456,8 @@ def replay(ctx, payload):
         return not oracle_layout(V, bytes.fromhex(d["payload"]), d["layout"])
     if fn == "tag":
         return not oracle_layout(V, bytes.fromhex(d["payload"]), OLD_VARIANTS[d["variant"]])
+    if fn == "exthdr":
+        return not oracle_exthdr(V, bytes.fromhex(d["size"]), d["tag_unsynch"], d["frame_unsynch"])
     if fn == "header":
         if "version" in d:
             return not oracle_header(V, d["version"], bytes.fromhex(d["size"]))
